@@ -490,7 +490,21 @@ def fix_reimported_names(source: str) -> str:
                     else:
                         new_alias = ast.alias(name=original_name, asname=referenced_name)
 
-                    module_from_imports[module_import_node.module].add(new_alias)
+                    # A relative import is relative to the package of the module it is in
+                    package = node.module.split(".")
+                    package = package[: len(package) - module_import_node.level]
+                    if module_import_node.level and not package:
+                        node_names.append(alias)
+                        continue
+                    if module_import_node.level:
+                        source_module = ".".join(
+                            package
+                            + ([module_import_node.module] if module_import_node.module else [])
+                        )
+                    else:
+                        source_module = module_import_node.module
+
+                    module_from_imports[source_module].add(new_alias)
 
                 elif isinstance(module_import_node, ast.Import):
                     # Remove this alias from node.names
